@@ -47,12 +47,18 @@ Inductive expr :=
 | ECast (e : expr) (ty : toks)
 | EAssign (l r : expr)
 | EStruct (p : rpath) (fs : list (string * expr)) (trailing : bool)   (* P { a: e, b: e[,] } *)
-| EMacro (name : string) (args : toks)    (* name!(args) *)
+| EMacro (name : string) (args : toks)    (* ::core::name!(args) *)
 | ELet (mutbl : bool) (x : string) (e : expr)   (* statement: let [mut] x = e; *)
 | ESemi (e : expr)                        (* statement: e; *)
 | ECallT (f : expr) (args : list expr)    (* f(a, b,) : call / tuple constructor, a comma after EVERY argument *)
-| EMatchC (scrut : expr) (arms : list (pat * expr)).
+| EMatchC (scrut : expr) (arms : list (pat * expr))
                                           (* match whose every arm ends in a comma, block arms included: `p => { .. },` *)
+(* --- additions for trait_handlers/debug --- *)
+| EStr (s : string)                       (* string literal "s" (s needs no escaping) *)
+| EDebugMapBuilder
+      (* statements: debug/common.rs create_debug_map_builder (Educe__RawString + `let mut builder = f.debug_map();`) *)
+| EDebugFieldArg (impl_generics field_ty self_ty where_clause method : toks) (field_expr : expr).
+      (* statement: debug/common.rs create_format_arg: `let arg = { struct Educe__DebugField ..; impl ..; Educe__DebugField(field_expr, PhantomData::<Self>) };` *)
 
 Definition block := list expr.
 
